@@ -38,6 +38,7 @@ pub struct GenCfg {
     pub p_dup: u64,     // out of 1000
     pub p_skip: u64,    // probability to skip a packet this step (reordering), out of 100
     pub p_late: u64,    // probability per network step to keep a copy for a late duplicate, out of 1000
+    pub latency_us: u64, // fixed one-way latency (timesync family), 0 = deliver at the next step
     pub step_us: u64,
     pub outages: Vec<(usize, usize, u64, u64)>, // src,dst,from,to (us)
     pub mfb: usize,
@@ -52,6 +53,8 @@ pub struct Gen {
     pub cfg: GenCfg,
     /// late duplicates: (release time, dst, src, message text)
     pub stash: Vec<(u64, usize, usize, String)>,
+    /// fixed-latency links: enqueue times of the packets in flight, per link
+    pub flight: std::collections::BTreeMap<(usize, usize), std::collections::VecDeque<u64>>,
 }
 
 impl Gen {
@@ -63,10 +66,16 @@ impl Gen {
     pub fn draw_cfg(rng: &mut Rng, family: &str) -> GenCfg {
         let n_peers = match family {
             "death3" | "three" => 3 + rng.below(2) as usize,
+            // a single peer that owns every player (with or without spectators)
+            "solo" => 1,
             "timesync" | "lossack" | "death" | "zombie" | "disc" | "specack" | "specdeath" | "idle" | "glitch" | "forge" | "evq" => 2,
             _ => *rng.pick(&[2usize, 2, 2, 3, 3, 4]),
         };
-        let players_per_peer: Vec<usize> = (0..n_peers).map(|_| if rng.chance(1, 4) { 2 } else { 1 }).collect();
+        let players_per_peer: Vec<usize> = if family == "solo" {
+            vec![1 + rng.below(3) as usize]
+        } else {
+            (0..n_peers).map(|_| if rng.chance(1, 4) { 2 } else { 1 }).collect()
+        };
         let mp = match family {
             "lockstep" => 0,
             "death3" => 1 + rng.below(10) as usize,
@@ -75,12 +84,13 @@ impl Gen {
         };
         let n_spec = match family {
             "spec" => 1 + rng.below(2) as usize,
+            "solo" => rng.below(3) as usize,
             "specack" | "specdeath" => 1,
             "death" | "zombie" | "disc" => if rng.chance(1, 2) { 1 } else { 0 },
             "mix" | "events" | "delay" => if rng.chance(1, 4) { 1 } else { 0 },
             _ => 0,
         };
-        let long = family == "long" || family == "events";
+        let long = family == "long" || family == "events" || (family == "solo" && rng.chance(1, 6));
         let longish = family == "specdeath";
         let mut cfg = GenCfg {
             family: family.to_owned(),
@@ -100,6 +110,7 @@ impl Gen {
             p_drop: *rng.pick(&[0u64, 0, 0, 10, 50, 150, 300]),
             p_dup: *rng.pick(&[0u64, 0, 0, 20, 100]),
             p_skip: *rng.pick(&[0u64, 0, 10, 30]),
+            latency_us: if family == "timesync" { *rng.pick(&[0u64, 0, 10_000, 30_000, 60_000, 100_000, 130_000]) } else { 0 },
             p_late: match family {
                 "three" | "death3" | "loss" | "lossack" | "late" => *rng.pick(&[0u64, 20, 60]),
                 "mix" | "death" | "spec" => *rng.pick(&[0u64, 0, 0, 20]),
@@ -199,7 +210,7 @@ impl Gen {
     pub fn new(seed: u64, family: &str) -> Gen {
         let mut rng = Rng(seed);
         let cfg = Self::draw_cfg(&mut rng, family);
-        Gen { rng, ops: vec![], w: World::new(), peers: vec![], cfg, stash: vec![] }
+        Gen { rng, ops: vec![], w: World::new(), peers: vec![], cfg, stash: vec![], flight: Default::default() }
     }
 
     /// Creates the sessions: peers 1..=n (address = sid), spectators n+1.. attached to peer 1
@@ -365,6 +376,29 @@ impl Gen {
             }
         }
         let links = self.w.links();
+        if self.cfg.latency_us > 0 {
+            // a lossless FIFO link with a fixed one-way latency
+            let now = self.w.now_us;
+            for (src, dst, n) in links {
+                let q = self.flight.entry((src, dst)).or_default();
+                while q.len() < n {
+                    q.push_back(now);
+                }
+                let mut due = 0;
+                while let Some(t) = q.front() {
+                    if *t + self.cfg.latency_us <= now {
+                        q.pop_front();
+                        due += 1;
+                    } else {
+                        break;
+                    }
+                }
+                for _ in 0..due {
+                    self.emit(format!("deliver {src} {dst} 0"));
+                }
+            }
+            return;
+        }
         for (src, dst, n) in links {
             if n == 0 {
                 continue;
